@@ -10,6 +10,7 @@ import (
 	"strings"
 
 	"github.com/tobgu/qframe"
+	qcsv "github.com/tobgu/qframe/config/csv"
 	"github.com/tobgu/qframe/config/groupby"
 
 	"verif/harness/core"
@@ -251,6 +252,29 @@ func checkObservers(qf qframe.QFrame) *core.Failure {
 			}
 			if !textDenotes(c.Kind, c.Cells[r], recs[r+1][i]) {
 				return core.Failf("ToCSV row %d column %s: %q, views say %q\n frame: %s", r, c.Name, recs[r+1][i], cellText(c.Kind, c.Cells[r], ""), o)
+			}
+		}
+	}
+	// ToCSV with the writer's options: columns rotated by one (a cyclic order, not its own inverse) and no header
+	if len(o.Cols) >= 2 {
+		rot := append(append([]string{}, o.Names()[1:]...), o.Names()[0])
+		buf.Reset()
+		if err := qf.ToCSV(&buf, qcsv.Columns(rot), qcsv.Header(false)); err != nil {
+			return core.Failf("ToCSV(Columns %v, Header false) error: %v", rot, err)
+		}
+		recs, err := model.ParseCSV(buf.Bytes(), ',', false)
+		if err != nil {
+			return core.Failf("ToCSV(Columns %v) output does not parse: %v: %q", rot, err, buf.String())
+		}
+		if len(recs) != o.N {
+			return core.Failf("ToCSV(Columns %v, Header false) wrote %d records, want %d rows: %q", rot, len(recs), o.N, buf.String())
+		}
+		for i, name := range rot {
+			c, _, _ := o.Col(name)
+			for r := 0; r < o.N; r++ {
+				if len(recs[r]) != len(rot) || !textDenotes(c.Kind, c.Cells[r], recs[r][i]) {
+					return core.Failf("ToCSV(Columns %v, Header false) row %d field %d (column %s): record %q, views say %q\n frame: %s", rot, r, i, name, recs[r], cellText(c.Kind, c.Cells[r], ""), o)
+				}
 			}
 		}
 	}
@@ -604,6 +628,10 @@ func c09BigFrame() qframe.QFrame {
 		}
 		if i%5 != 2 {
 			s := strings.Repeat("w", i%9) + strconv.Itoa(i)
+			if i%19 == 7 {
+				// bytes that serialisers have to escape, at the end of strings of different lengths
+				s += []string{"\x1f", "\"", "\\", "\n", "\x00", "\u2028", "\x7f", ",", "'"}[(i/19)%9]
+			}
 			ss[i] = &s
 		}
 	}
